@@ -65,8 +65,10 @@ build_gen_harness() {
   local b="$1"
   ensure_rewriter || return 2
   rm -rf "$b/rw"; mkdir -p "$b/rw" "$b/bin"
+  # the scheduler and the root package (its adapters sit between generated code and the scheduler);
+  # the root package's AtomicBool stays native: an invisible step of the thread that performs it
   "$VERIF_DIR/build/bin/rewrite" -repo "$VERIF_REPO" -out "$b/rw" -vs "$VERIF_DIR/engine/vs" \
-      -pkgs ./scheduler -overlay "$b/overlay.json" > "$b/rewrite.log" 2>&1 || { cat "$b/rewrite.log"; tool_error "rewriter failed"; return 2; }
+      -pkgs ./scheduler,. -native-atomic -overlay "$b/overlay.json" > "$b/rewrite.log" 2>&1 || { cat "$b/rewrite.log"; tool_error "rewriter failed"; return 2; }
   harness_modfile "$b"
   (cd "$VERIF_DIR/harness" && go build -modfile="$b/harness.mod" -overlay "$b/overlay.json" -o "$b/bin/genmc" ./cmd/genmc) > "$b/build.log" 2>&1 \
       || { cat "$b/build.log"; tool_error "building genmc failed"; return 2; }
